@@ -96,7 +96,10 @@ func Render(c Case, f string) (string, int) {
 	} else {
 		label = "optional "
 	}
-	if pkgFor(c, f) != "" {
+	if c.Planted == "bad-package" && f == "b" {
+		w("package bad..pkg;")
+		line = n
+	} else if pkgFor(c, f) != "" {
 		w("package " + pkgFor(c, f) + ";")
 	}
 	for _, g := range c.Imports[f] {
